@@ -42,9 +42,8 @@ def run_all(mir, syn, repo, tier, props):
     ctx.stats['functions'] = len(prog.fns)
     ctx.stats['call_edges'] = sum(len(v) for v in prog.callgraph().values())
     for name, serves in MODULES:
-        if not any(p in serves for p in props) and name != 'r_layout' and name != 'r_function':
-            # r_layout / r_function always run: other modules use their obligations as supporting facts
-            continue
+        # every module runs on every request: obligations are tagged with all the properties they are a necessary condition of,
+        # which is not limited to the module's nominal list (and some modules use others' obligations as supporting facts)
         try:
             mod = importlib.import_module(name)
         except ModuleNotFoundError as e:
